@@ -146,6 +146,7 @@ func genC03(r *gen.Rng, tier string, emit func(string)) {
 			emit(fmt.Sprintf("readpdu %s %s", pickChunk(r, len(g)), canon.Hex(g)))
 		}
 	}
+	genC03Conn(r, tier, emit)
 	// exhaustive: every single split point and every uniform size 1..32 of a few short streams
 	for j := 0; j < scale(tier, 3, 20); j++ {
 		var all []byte
@@ -184,6 +185,29 @@ func genC03(r *gen.Rng, tier string, emit func(string)) {
 				emit(fmt.Sprintf("stream u1 %s t%d", canon.Hex(pre), full))
 			}
 		}
+	}
+}
+
+// genC03Conn: the consumer the property names — Watch — on streams where several frames are readable at once (the peer
+// pipelines, the application was slow): every frame must still be seen, after a generic_nack too, whatever the read sizes.
+func genC03Conn(r *gen.Rng, tier string, emit func(string)) {
+	for _, pre := range []string{"", "f1;", "f7;", "f40;"} {
+		emit("conn " + pre + "s:5:- drain0 unsol:100:1 unsol:101:2 unsol:102:3 drain1")
+		emit("conn " + pre + "s:5:- drain0 unsol:100:1 bad:101:2 unsol:102:3 bad:103:4 unsol:104:5 drain1")
+		emit("conn " + pre + "s:5:- sub0 wret0 drain0 unsol:100:1 ans0 unsol:102:2 drain1")
+	}
+	for i := 0; i < scale(tier, 12, 60); i++ {
+		// a negative response that still carries a body, between two ordinary PDUs, all readable at once
+		f, _ := validFrame(r, gen.Representable)
+		if len(f) <= 16 || len(f) > 200 {
+			i--
+			continue
+		}
+		f = append([]byte{}, f...)
+		putBE32(f[8:12], uint32(r.Pick(1, 0x45, 0x400)))
+		putBE32(f[12:16], uint32(200+i))
+		pre := []string{"", "f1;", "f16;"}[r.Intn(3)]
+		emit(fmt.Sprintf("conn %ss:5:- drain0 unsol:100:1 raw:2:%s:ok unsol:102:3 drain1", pre, canon.Hex(f)))
 	}
 }
 
@@ -349,8 +373,36 @@ func genC12(r *gen.Rng, tier string, emit func(string)) {
 	}
 }
 
+// foreignAddressFrames: frames laid out by hand from SMPP v5 §4.5.1 (query_sm) and §4.1.3.1 (alert_notification), NOT by the
+// library's Marshal: another implementation's spelling of addresses (dialling prefixes, a leading '+', every TON/NPI of
+// real traffic) must survive decode -> Marshal -> decode.
+func foreignAddressFrames(emit func(string)) {
+	cstr := func(s string) []byte { return append([]byte(s), 0) }
+	frame := func(id uint32, body []byte) []byte {
+		f := make([]byte, 16, 16+len(body))
+		putBE32(f, uint32(16+len(body)))
+		putBE32(f[4:], id)
+		putBE32(f[12:], 7)
+		return append(f, body...)
+	}
+	for _, ton := range []byte{0, 1, 2, 5} {
+		for _, npi := range []byte{0, 1, 8} {
+			for _, no := range []string{"", "+", "+4917012345", "004917012345", "4917012345", "0", "+0", "++1"} {
+				q := append(cstr("msg-1"), ton, npi)
+				q = append(q, cstr(no)...)
+				emit("reenc " + canon.Hex(frame(0x00000003, q)))
+				a := append([]byte{ton, npi}, cstr(no)...)
+				a = append(a, ton, npi)
+				a = append(a, cstr(no)...)
+				emit("reenc " + canon.Hex(frame(0x00000102, a)))
+			}
+		}
+	}
+}
+
 // C13: re-encoding of accepted (also non-canonical) frames; determinism over map order.
 func genC13(r *gen.Rng, tier string, emit func(string)) {
+	foreignAddressFrames(emit)
 	n := scale(tier, 3000, 60000)
 	for i := 0; i < n; i++ {
 		switch c := r.Intn(100); {
